@@ -10,7 +10,7 @@ CONSTANTS
   MaxOps = 5
   IdSeqs <- Ids3
   TagVals = {9}
-INVARIANTS AllMapsValid ChecksExact
+INVARIANTS AllMapsValid ChecksExact RefusalApplies
 PROPERTIES OldMapsIntact PlusMinusOne
 VIEW View
 CHECK_DEADLOCK FALSE
